@@ -68,8 +68,11 @@ func (s *MemoryStore) Delete(key string) error {
 // stripped from each returned value. So if keys are ["aa", "ab", "cd"]
 // then List("a") would produce []string{"a", "b"}
 func (s *MemoryStore) List(prefix string) ([]string, error) {
+	vhook("rlock-req", "store", &s.mu)
 	s.mu.RLock()
+	vhook("rlock-acq", "store", &s.mu)
 	defer s.mu.RUnlock()
+	defer vhook("runlock", "store", &s.mu)
 
 	rv := []string{}
 	vhook("read", "data", &s.mu)
